@@ -1,5 +1,7 @@
 package main
 
+import "time"
+
 // Minimal ROBDD used only to decide "is this guard satisfiable?" during unrolling.
 // Atoms are Boolean variables and hash-consed non-Boolean predicates (treated as independent:
 // a guard reported unsatisfiable is unsatisfiable; some unsatisfiable guards may be missed).
@@ -13,7 +15,10 @@ var (
 	bddVarOf    = map[int]int{} // term id -> var index
 	bddMemo     = map[int]int{} // term id -> bdd (-1 = gave up)
 	bddApply    = map[[3]int]int{}
-	bddBudget   = 4_000_000
+	bddBudget   = 3_000_000 // total nodes before the tables are reset
+	bddPerCall  = 60_000    // new nodes one query may create before it gives up (answer: "may be feasible")
+	bddCallLimit int
+	bddOps, bddOpLimit int
 	bddGaveUp   int
 	bddDisabled bool
 )
@@ -28,7 +33,7 @@ func bddMk(v, lo, hi int) int {
 	if id, ok := bddUnique[n]; ok {
 		return id
 	}
-	if len(bddNodes) > bddBudget {
+	if len(bddNodes) > bddCallLimit {
 		panic(bddOverflow{})
 	}
 	bddNodes = append(bddNodes, n)
@@ -61,6 +66,10 @@ func bddIte(f, g, h int) int {
 	key := [3]int{f, g, h}
 	if r, ok := bddApply[key]; ok {
 		return r
+	}
+	bddOps++
+	if bddOps > bddOpLimit {
+		panic(bddOverflow{})
 	}
 	top := bddNodes[f].v
 	for _, x := range []int{g, h} {
@@ -129,18 +138,37 @@ func toBDD(t *Term) int {
 	return r
 }
 
+var bddSecs float64
+var bddMaxSecs = 4.0
+var bddCalls int
+
 func safeBDD(t *Term) (r int) {
 	if bddDisabled {
 		return -1
+	}
+	if bddSecs > bddMaxSecs {
+		bddDisabled = true
+		return -1
+	}
+	t0 := time.Now()
+	bddCalls++
+	defer func() { bddSecs += time.Since(t0).Seconds() }()
+	if m, ok := bddMemo[t.id]; ok && m < 0 {
+		return -1
+	}
+	if len(bddNodes) > bddBudget {
+		bddReset()
+	}
+	bddCallLimit = len(bddNodes) + bddPerCall
+	bddOpLimit = bddOps + 300_000
+	if len(bddApply) > 8_000_000 {
+		bddReset()
 	}
 	defer func() {
 		if x := recover(); x != nil {
 			if _, ok := x.(bddOverflow); ok {
 				bddGaveUp++
 				bddMemo[t.id] = -1
-				if len(bddNodes) > bddBudget {
-					bddDisabled = true
-				}
 				r = -1
 				return
 			}
@@ -174,3 +202,20 @@ func prune(t *Term) *Term {
 	}
 	return t
 }
+
+
+func bddReset() {
+	bddNodes = []bddNode{{-1, 0, 0}, {-1, 1, 1}}
+	bddUnique = map[bddNode]int{}
+	neg := map[int]int{}
+	for k, v := range bddMemo {
+		if v < 0 {
+			neg[k] = v
+		}
+	}
+	bddMemo = neg
+	bddApply = map[[3]int]int{}
+	bddResets++
+}
+
+var bddResets int
